@@ -232,7 +232,7 @@ pub async fn run_case(ctx: &Ctx, st: &mut State, ci: usize, c: &Value) -> Value 
     }
     let mut worst: Option<Value> = None;
     let mut runs = 0;
-    let nv = ctx.nvariants.min(2);
+    let nv = ctx.nvariants.min(4);
     for v in 0..nv {
         match one_run(ctx, entry, &pre, ci, tpl, Some((idx, mutn)), v).await {
             Ok(Some(mut r)) => {
